@@ -217,7 +217,16 @@ for op in spec["ops"]:
         res = classify(e)
     finally:
         state["fault"] = None
-    out_ops.append({"res": res, "reads": list(reads), "mods": list(mod_log)})
+    rec = {"res": res, "reads": list(reads), "mods": list(mod_log)}
+    if op["op"] == "load":
+        # snapshot of theory.thy after every load (outcome is judged op by op)
+        t = theory.thy
+        rec["thy_items"] = None if t is None else [list(x) if isinstance(x, tuple) else x for x in t.__dict__.get("_c12", [])]
+        d = dump_theory(t)
+        rec["digest"] = None if d is None else hashlib.sha1(json.dumps(d, sort_keys=True).encode("utf-8")).hexdigest()
+        if spec.get("dump_all"):
+            rec["dump"] = d
+    out_ops.append(rec)
 
 thy = theory.thy
 flags = {}
